@@ -216,9 +216,10 @@ def run(ctx):
     nschemas, npops, nmax = (6, 30, 14) if quick else (40, 100, 14)
     # every 8th schema (the last one in quick) lets referrers be complex instances: the known `complex-referrer` class
     # schema variants by index mod 8: 1,4,7 subtypes of the inverted entity with several supertypes (rel first / second);
-    # 2,4 targets inheriting inverses from a grand-/second supertype; 3 complex referrers; 5 a referrer redeclaring the inverted attribute
+    # 2,4 targets inheriting inverses from a grand-/second supertype; 2,6 diamond and double-diamond target hierarchies (inverse declared at the
+    # top and in the middle, aggregate and single-valued); 3 complex referrers; 5 a referrer redeclaring the inverted attribute
     schemas = [G.schema_c11(ctx.rng, i, ninv=(i % 3) + 1, complex_ref=(i % 8 == 3), mi=(i % 8 in (1, 4, 7)),
-                            deep=(i % 8 in (2, 4)), redecl=(i % 8 == 5)) for i in range(nschemas)]
+                            deep=(i % 8 in (2, 4)), redecl=(i % 8 == 5), diamond=(i % 8 in (2, 6))) for i in range(nschemas)]
     t0 = time.time()
     with cf.ThreadPoolExecutor(max_workers=8) as ex:
         exes = list(ex.map(lambda s: C10.build_schema(b, s, ctx.work), schemas))
